@@ -157,11 +157,11 @@ class Atoms():
 
     @property
     def n_anisotropic_atoms(self) -> int:
-        return len([x for x in self.all_atoms if sum(x.uvals[1:]) > 0.00001])
+        return len([x for x in self.all_atoms if sum(abs(u) for u in x.uvals[1:]) > 0.00001])
 
     @property
     def n_isotropic_atoms(self) -> int:
-        return len([x for x in self.all_atoms if sum(x.uvals[1:]) == 0.0])
+        return len([x for x in self.all_atoms if sum(abs(u) for u in x.uvals[1:]) == 0.0])
 
     @property
     def n_anisotropic_hydrogen_atoms(self) -> int:
